@@ -1,5 +1,5 @@
 """C01 — EnumString returns variant V iff the input is one of V's declared spellings."""
-from vlib.defs import Item, Variant, Field, EM, ser, tos, aci, dw, DISABLED, DEFAULT
+from vlib.defs import Item, Variant, Field, EM, ser, tos, aci, dw, DISABLED, DEFAULT, raw, doc
 from vlib.run import Corpus
 from vlib import gen as G
 from vlib import strings as S
@@ -83,6 +83,10 @@ def regression():
         Item("E", [Variant("Red", "unit"), Variant("Other", "tuple", [Field("String")], [DISABLED, DEFAULT]), Variant("Blue", "unit")]),
         Item("E", [Variant("Other", "named", [Field("String", "rest")], [DEFAULT, ser("o"), DISABLED]), Variant("Red", "unit")],
              metas=[EM("pety", "PErr"), EM("pefn", "perr_a")]),
+        # attributes strum does not read, before the ones it does
+        Item("E", [Variant("A", "unit", [], [raw("doc(hidden)"), ser("a1"), raw("allow(dead_code)"), ser("a2")]),
+                   Variant("B", "unit", [], [raw('doc(alias = "x")'), DISABLED]), Variant("C", "tuple", [Field("String")], [doc(" d"), raw("doc(hidden)"), DEFAULT]),
+                   Variant("D", "unit", [], [raw("doc(hidden)"), aci(True, explicit=False), doc(" text"), tos("Dee")])]),
         # several spellings of ONE variant that differ only in ASCII case, under every flag value
         Item("E", [Variant("A", "unit", [], [ser("mb"), tos("MB"), aci(False)]), Variant("B", "unit", [], [ser("kb"), ser("Kb"), ser("KB")]),
                    Variant("C", "unit", [], [ser("gb"), tos("GB"), aci(True, explicit=True)]), Variant("D", "unit", [], [tos("Tb"), ser("tB")])]),
